@@ -373,6 +373,16 @@ def guard_rule(rep, prog, oks):
         lab = "DF::ADSB/ME::AircraftOperationStatus/OperationStatus::%s" % kind
         FLAG_LINES += [(lab, " tcas", [58], {1}), (lab, " ident_switch_active", [59], {1}), (lab, " atc", [60], {1}), (lab, " saf", [61], {1}),
                        (lab, " sda=", [62, 63], {1, 2, 3})]
+    # mode words of the target-state report's ACAS line: each appears exactly when ACAS is operational and its own decoded flag is set
+    # (the flags' bit positions are taken from the decode model: this rule is about rendering what was decoded)
+    tss = reps.get("DF::ADSB/ME::TargetStateAndStatusInformation")
+    if tss is not None:
+        bit_of = {l.path[-1]: sorted(l.atoms) for l in tss.leaves if len(l.atoms) == 1}
+        for field, word in (("autopilot", "autopilot"), ("vnac", "vnav"), ("alt_hold", "altitude-hold"), ("approach", " approach")):
+            if field in bit_of and "tcas" in bit_of:
+                FLAG_LINES.append(("DF::ADSB/ME::TargetStateAndStatusInformation", word, bit_of[field] + bit_of["tcas"], {3}))
+            else:
+                rep.violation("R3", "anchor:tss-flag:%s" % field, "target state report: decoded flag %s / tcas not found as single-bit fields" % field)
     n = 0
     for prefix, kw, atoms, when in FLAG_LINES:
         p = reps.get(prefix)
